@@ -42,8 +42,30 @@ def install(h, cfg):
   h.extra_oracles.append(fresh_oracle)
 
 
+STALE_LOOKUP_SIG = ("formula with a lookup keyed on a column that no longer exists keeps its old result "
+                    "(a freshly loaded engine computes KeyError)")
+
+
+def stale_removed_key(doc, sch, t, c):
+  """Does column t.c's formula look records up by a keyword column that the target table lacks?"""
+  import re
+  info = sch.get(t, {}).get(c)
+  if not info or not info[2]:
+    return False
+  for m in re.finditer(r"(\w+)\.lookup(?:One|Records)\(([^()]*(?:\([^()]*\)[^()]*)*)\)", info[2]):
+    tgt, args = m.group(1), m.group(2)
+    if tgt not in sch:
+      continue
+    for kw in re.findall(r"(?:^|,)\s*(\w+)\s*=", args):
+      if kw not in ("order_by", "sort_by") and kw not in sch[tgt] and kw != "id":
+        return True
+  return False
+
+
 def fresh_oracle(h, rec):
   from gx import engine_driver as ed
+  if getattr(h, "_c05_dead", False):
+    return
   doc = h.doc
   try:
     fresh, res = ed.fresh_engine_from(doc)
@@ -58,7 +80,13 @@ def fresh_oracle(h, rec):
   d = ed.diff_snapshots(a, b)
   if d:
     sch = doc.engine_schema()
-    h._find(PROP, classify(d[0], sch, rec), "; ".join(d[:3]) + " (first=incremental, second=fresh)", rec)
+    sig = classify(d[0], sch, rec)
+    cells = [x for x in d if x.startswith("cell ")]
+    if cells and len(cells) == len(d) and all(
+        stale_removed_key(doc, sch, x.split(" ")[1].split("[")[0], x.split("].", 1)[1].split(":")[0]) for x in cells):
+      sig = STALE_LOOKUP_SIG
+    h._find(PROP, sig, "; ".join(d[:3]) + " (first=incremental, second=fresh)", rec)
+    h._c05_dead = True      # the live engine is known to have diverged: stop judging this history
   # non-trivial: some formula cell changed through a dependency in this bundle
   st = rec["res"].steps or []
   if sum(1 for s in st if s[0] == "calc") >= 2:
